@@ -24,6 +24,9 @@ import traceback
 from collections import Counter
 
 HERE = os.path.dirname(os.path.dirname(os.path.abspath(__file__)))
+# self-check campaigns point these elsewhere so that runs against mutated copies never touch committed evidence
+EVID_DIR = os.environ.get("VERIF_EVIDENCE_DIR") or os.path.join(HERE, "evidence")
+REPLAY_DIR = os.path.join(os.environ["VERIF_EVIDENCE_DIR"], "replays") if os.environ.get("VERIF_EVIDENCE_DIR") else os.path.join(HERE, "replays")
 MAX_DISTINCT_PER_SHARD = 400000
 MAX_VIOL_PER_SHARD = 12
 
@@ -277,7 +280,11 @@ def main(argv=None):
         return run_shard(pid, tier, seed, int(i), int(n), a.out, replay=a.replay)
 
     t0 = time.time()
-    mod = load_module(pid)
+    try:
+        mod = load_module(pid)
+    except ModuleNotFoundError as e:
+        print("INCONCLUSIVE: no check module for %s (%s)" % (pid, e))
+        return 2
     nshards = a.shards or (
         getattr(mod, "QUICK_SHARDS", 4) if tier == "quick" else getattr(mod, "THOROUGH_SHARDS", 16)
     )
@@ -418,12 +425,12 @@ def finish(pid, mod, tier, seed, nshards, results, problems, t0, replay=None):
         "violations": n_viol,
     }
     if not replay:
-        os.makedirs(os.path.join(HERE, "evidence"), exist_ok=True)
-        tmpf = os.path.join(HERE, "evidence", ".%s.json.tmp" % pid)
+        os.makedirs(EVID_DIR, exist_ok=True)
+        tmpf = os.path.join(EVID_DIR, ".%s.json.tmp" % pid)
         with open(tmpf, "w") as fh:
             json.dump(ev, fh, indent=1, sort_keys=True, ensure_ascii=True)
             fh.write("\n")
-        os.replace(tmpf, os.path.join(HERE, "evidence", "%s.json" % pid))
+        os.replace(tmpf, os.path.join(EVID_DIR, "%s.json" % pid))
 
     print("%s tier=%s seed=%d shards=%d evaluations=%d distinct_nontrivial=%d wall=%.1fs" % (
         pid, tier, seed, nshards, evaluations, n_distinct, wall))
@@ -438,10 +445,10 @@ def finish(pid, mod, tier, seed, nshards, results, problems, t0, replay=None):
             print("note: listed finding %s was not observed in this run" % fid)
     if not replay:
         import glob
-        for old in glob.glob(os.path.join(HERE, "replays", "%s-*.json" % pid)):
+        for old in glob.glob(os.path.join(REPLAY_DIR, "%s-*.json" % pid)):
             os.unlink(old)
     if n_viol:
-        os.makedirs(os.path.join(HERE, "replays"), exist_ok=True)
+        os.makedirs(REPLAY_DIR, exist_ok=True)
         seen = set()
         shown = 0
         for v in violations:
@@ -449,7 +456,7 @@ def finish(pid, mod, tier, seed, nshards, results, problems, t0, replay=None):
             if h in seen:
                 continue
             seen.add(h)
-            path = os.path.join(HERE, "replays", "%s-%s.json" % (pid, h))
+            path = os.path.join(REPLAY_DIR, "%s-%s.json" % (pid, h))
             with open(path, "w") as fh:
                 json.dump({"property": pid, "case": v["case"], "detail": v["detail"],
                            "seed": seed, "tier": tier, "hashseed": v.get("hashseed")},
